@@ -821,6 +821,9 @@ func (x *Run) enterLoopHeader(fr *Frame, from, to *ssa.BasicBlock, st *State, lp
 				switch i2 := i2.(type) {
 				case *ssa.Store:
 					if ia, ok := i2.Addr.(*ssa.IndexAddr); ok {
+						if ph, isPhi := ia.X.(*ssa.Phi); isPhi && ph.Block() == to {
+							continue // a loop variable: unknown at the head already
+						}
 						x.havocSliceRoot(fr, st, ia.X)
 					}
 				case ssa.CallInstruction:
